@@ -24,5 +24,5 @@ fi
 rm -f /tmp/evalmut.$$.log
 for id in "$@"; do
   echo "--- check $id quick against the mutant"
-  VERIF_REPO=$WT VERIF_DIR=$HOME/.cache/verif-work/mut.$$/out /verif/check.sh $id quick 2>&1 | grep -v "^  " | cut -c1-300 | tail -6
+  VERIF_REPO=$WT VERIF_OUT=$HOME/.cache/verif-work/mut.$$/out /verif/check.sh $id quick 2>&1 | grep -v "^  " | cut -c1-300 | tail -6
 done
